@@ -38,6 +38,8 @@ func init() {
 			{ID: "C18-R17", Title: "global slots are never Go nil", Floor: 1, Run: globalSlotsAreNeverGoNil},
 			{ID: "C18-R18", Title: "the rollback restores what compilation moves", Floor: 1, Run: rollbackRestoresWhatCompilationMoves},
 			{ID: "C18-R19", Title: "evaluations run under the caller's context", Floor: 2, Run: evaluationsRunUnderTheCallersContext},
+			{ID: "C18-R20", Title: "the snapshot comes first", Floor: 2, Run: theSnapshotComesFirst},
+			{ID: "C18-R21", Title: "importers remember only successes", Floor: 2, Run: importersRememberOnlySuccesses},
 		},
 	})
 }
